@@ -55,7 +55,8 @@ def make_feedback(report, f, i, style=0):
     from pedal.core.feedback import Feedback
     kw = dict(label=f["label"], category=None if f["cat"] == "none" else f["cat"], priority=None if f["prio"] == "none" else f["prio"],
               kind=f["kind"], muted=f["muted"], unscored=f["unscored"], correct=COR[f["correct"]],
-              valence=VAL[f["valence"]], score=score_value(f), title="t%d" % i, message="m%d" % i)
+              valence=VAL[f["valence"]], score=score_value(f), title="t%d" % i,
+              message="" if f.get("msg") == "empty" else "m%d" % i)   # the empty string is a message too
     if f["els"]:
         kw["else_message"] = "e%d" % i
     fields = dict(FM[f["flds"]])
@@ -135,7 +136,7 @@ def random_feedback(rng):
          "muted": rng.random() < 0.2, "kind": rng.choice(["Mistake", "Mistake", "Compliment", "Instructional", "Hint"]),
          "els": False, "label": rng.choice(["a", "b", "c"]), "flds": rng.choice(["f1", "f2", "f3"]),
          "correct": rng.choice(["T", "F", "N", "N"]), "valence": rng.choice(["neg", "neg", "zero", "pos", "none"]),
-         "score": "none", "unscored": rng.random() < 0.15}
+         "score": "none", "unscored": rng.random() < 0.15, "msg": "empty" if rng.random() < 0.15 else "text"}
     if not f["trig"]:
         f["els"] = rng.random() < 0.3
     r = rng.random()
